@@ -195,6 +195,14 @@ pub fn check_ws(ws: &WorkspaceSpec, info: &mut CaseInfo) -> Outcome {
 
 pub fn run(ctx: &Ctx) {
     ctx.run_prop("lib", ctx.tier.pick(16_000, 800_000), 16, || workspace(cfg()).prop_map(|ws| Case { ws }), |c, info| check_ws(&c.ws, info));
+    // bounded-exhaustive: every override chain over the 8 provider slots (which slots define the
+    // name x which of those definitions request their own name x 2 analysis orders = 3^8 x 2)
+    let all = crate::exh::all_with_self();
+    ctx.set_extra("exhaustive_subcheck", serde_json::json!(format!("chains: all {} (assignment of chain links to 8 provider slots, each link overriding or plain, 2 analysis orders) enumerated", all.len())));
+    ctx.run_enum("chains", all, 16, |c, info| {
+        info.classes.push(format!("chains: {} links, {} overriding", c.mask.count_ones(), c.self_mask.count_ones()));
+        check_ws(&crate::exh::slot_workspace(&cfg(), c), info)
+    });
 }
 
 pub fn judge(_ctx: &Ctx, sub: &str, case: &Value) -> Option<Outcome> {
@@ -203,6 +211,10 @@ pub fn judge(_ctx: &Ctx, sub: &str, case: &Value) -> Option<Outcome> {
         "lib" => {
             let c: Case = from_case(case)?;
             Some(check_ws(&c.ws, &mut info))
+        }
+        "chains" => {
+            let c: crate::exh::SlotCase = from_case(case)?;
+            Some(check_ws(&crate::exh::slot_workspace(&cfg(), &c), &mut info))
         }
         _ => None,
     }
